@@ -6,6 +6,7 @@ import (
 	"crypto/x509"
 	"errors"
 	"fmt"
+	"github.com/google/uuid"
 	"github.com/gr33nbl00d/caddy-revocation-validator/config"
 	"github.com/gr33nbl00d/caddy-revocation-validator/core"
 	"github.com/gr33nbl00d/caddy-revocation-validator/core/asn1parser"
@@ -33,6 +34,8 @@ type OCSPRevocationChecker struct {
 	ocspConfig *config.OCSPConfig
 	logger     *zap.Logger
 	cache      *cache2go.CacheTable
+	//the cache table is shared by all checkers of the process, the prefix keeps the entries of this checker apart
+	cacheKeyPrefix string
 }
 
 func (c *OCSPRevocationChecker) IsRevoked(clientCertificate *x509.Certificate, verifiedChains [][]*x509.Certificate) (*core.RevocationStatus, error) {
@@ -41,7 +44,7 @@ func (c *OCSPRevocationChecker) IsRevoked(clientCertificate *x509.Certificate, v
 	if err != nil {
 		return nil, err
 	}
-	cacheKey := issuerRDNSequence.String() + "_" + clientCertificate.SerialNumber.String()
+	cacheKey := c.cacheKeyPrefix + issuerRDNSequence.String() + "_" + clientCertificate.SerialNumber.String()
 	cache, err := c.tryGetResponseFromCache(cacheKey)
 	if err == nil {
 		return cache, nil
@@ -150,6 +153,7 @@ func (c *OCSPRevocationChecker) Provision(ocspConfig *config.OCSPConfig, logger 
 	c.ocspConfig = ocspConfig
 	c.logger = logger
 	c.cache = cache2go.Cache("ocsp_client")
+	c.cacheKeyPrefix = uuid.NewString() + "_"
 	return nil
 }
 
